@@ -232,7 +232,7 @@ fn main() {
             }
         });
         // --- every mapped character of every built-in font, drawn
-        let styles = run.tier(8u64, 40u64);
+        let styles = run.tier(8u64, 400u64);
         run.generate("built-in-fonts-all-characters", nf * styles, true, 0.5, |ctx, idx, rng| {
             let fi = (idx % nf) as usize;
             let style = (idx / nf) as usize + (fi % 4) * 2;
@@ -258,7 +258,7 @@ fn main() {
             }
         });
         // --- custom fonts
-        let nc = run.tier(200_000u64, 3_000_000u64);
+        let nc = run.tier(200_000u64, 40_000_000u64);
         run.generate("custom-fonts", nc, false, 0.5, |ctx, idx, rng| {
             let f: CustomFontD = zoo::gen_custom_font(rng);
             let s: String = zoo::gen_custom_string(rng, &f).replace('\n', "");
